@@ -108,8 +108,9 @@ class _TcpConn(threading.Thread):
 class TcpDevice:
     """A MySensors ethernet gateway device on 127.0.0.1."""
 
-    def __init__(self, log, answer=True):
+    def __init__(self, log, answer=True, host="127.0.0.1"):
         self.log, self.answer = log, answer
+        self.host = host
         self.port = None
         self.lsock = None
         self.conns = []
@@ -120,9 +121,9 @@ class TcpDevice:
         return self.port
 
     def up(self):
-        s = socket.socket()
+        s = socket.socket(socket.AF_INET6 if ":" in self.host else socket.AF_INET)
         s.setsockopt(socket.SOL_SOCKET, socket.SO_REUSEADDR, 1)
-        s.bind(("127.0.0.1", self.port or 0))
+        s.bind((self.host, self.port or 0))
         s.listen(8)
         self.port = s.getsockname()[1]
         self.lsock = s
@@ -337,7 +338,7 @@ def _where(args):
     return [f"{f.filename.rsplit('/', 1)[-1]}:{f.name}" for f in traceback.extract_tb(args.exc_traceback)][-4:]
 
 
-def run_real(kind, flavour, script, rt=0.4, answer=True, hold=0.0):
+def run_real(kind, flavour, script, rt=0.4, answer=True, hold=0.0, host="127.0.0.1"):
     """One lifetime of a real gateway against a real (loopback / pty) device. Returns (events, meta)."""
     import serial
     import serial_asyncio
@@ -349,7 +350,7 @@ def run_real(kind, flavour, script, rt=0.4, answer=True, hold=0.0):
     tmp = tempfile.mkdtemp(prefix="vf-real-")
     meta = {"kind": kind, "flavour": flavour, "rt": rt, "script": list(script), "answer": answer, "hold": hold, "real": True,
             "thread_errors": [], "loop_errors": []}
-    dev = TcpDevice(log, answer) if kind == "tcp" else PtyDevice(log, tmp)
+    dev = TcpDevice(log, answer, host) if kind == "tcp" else PtyDevice(log, tmp)
     old_hook = threading.excepthook
 
     def hook(args):
@@ -394,7 +395,7 @@ def run_real(kind, flavour, script, rt=0.4, answer=True, hold=0.0):
 
             def build():
                 if kind == "tcp":
-                    return cls("127.0.0.1", port=dev.port, protocol_version="2.2", reconnect_timeout=rt)
+                    return cls(host, port=dev.port, protocol_version="2.2", reconnect_timeout=rt)
                 return cls(dev.link, protocol_version="2.2", reconnect_timeout=rt, timeout=0.2)
 
             if flavour == "asyncio":
